@@ -27,7 +27,7 @@ RULE = (
     "Optional[int] / pydantic model / dataclass / two factory-built pydantic models that are distinct classes with an identical repr, positional-or-keyword or keyword-only, with or without default, "
     "TaskiqDepends parameters at any position (for a third of them the caller passes an explicit value by keyword, which must win over the dependency); a VALID call split (positional prefix up to the first dependency or "
     "omitted parameter, the rest by keyword, defaults optionally omitted); values JSON-exact (None, bool, ints incl. "
-    ">64 bit, finite floats, surrogate-free text, nested lists/dicts) or model/dataclass instances; validate_params "
+    ">64 bit, finite floats, surrogate-free text, nested lists/dicts) or model/dataclass instances (also models with defaulted fields left unset); validate_params "
     "on/off; codec JSON / pickle / JSONFormatter; sync or async function; in a third of the cases a shared task of the same name but with other annotations exists in the global registry (the broker's own task must win). >=50% of the cases come from a 'drift' family: "
     "all parameters passed positionally, un-annotated ones in front of / between annotated ones, each value taken from "
     "a pool of AMBIGUOUS values ('7', '1', 'true', 1, 2.0, {'x': '4'}, [1, '2'], ...) that convert differently under a "
@@ -78,6 +78,7 @@ AMBIG = st.sampled_from(["7", "1", "0", "2.5", "true", "no", 1, 0, 7, 2.0, 3.5, 
 VALUE = st.one_of(
     AMBIG, AMBIG, JSONV,
     st.tuples(st.just("M"), st.integers(-5, 5), st.text(alphabet="abc", max_size=3)).map(list),
+    st.tuples(st.just("M1"), st.integers(-5, 5)).map(list),
     st.tuples(st.just("D"), st.integers(-5, 5), st.lists(st.integers(0, 3), max_size=2)).map(list),
     st.lists(st.integers(0, 9), max_size=3), st.dictionaries(st.text(alphabet="abk", max_size=2), st.integers(0, 9), max_size=2))
 
@@ -114,6 +115,8 @@ def parts(tier: str) -> List[Part]:
 
 
 def mkval(v: Any) -> Any:
+    if isinstance(v, list) and len(v) == 2 and v[0] == "M1" and isinstance(v[1], int):
+        return M(x=v[1])             # a model whose defaulted field was left unset by the caller
     if isinstance(v, list) and len(v) == 3 and v[0] == "M" and isinstance(v[1], int) and isinstance(v[2], str):
         return M(x=v[1], y=v[2])
     if isinstance(v, list) and len(v) == 3 and v[0] == "D" and isinstance(v[1], int) and isinstance(v[2], list):
